@@ -1230,6 +1230,34 @@ class DaskIndexOp:
         return x[(y % 7) > a["thr"]] if y.dtype.kind != "b" else x[y]
 
 
+def _bw_add2(a, b):
+    return a + b
+
+
+@op("blockwise2", arity=2, weight=0.0)
+class Blockwise2Op:
+    """da.blockwise over TWO array operands with identical index labels (a generic, non-Elemwise Blockwise
+    node whose operands need chunk unification)."""
+
+    @staticmethod
+    def gen(rng, ctx, ins):
+        x, y = ins
+        if not known(x) or not known(y) or x.shape != y.shape or x.ndim < 1:
+            return None
+        # map_blocks does not align its operands (align_arrays=False, as upstream): equal chunks only
+        return {"how": "map_blocks" if (x.chunks == y.chunks and rng.random() < 0.5) else "blockwise"}
+
+    @staticmethod
+    def apply(env, ins, a):
+        x, y = ins
+        da = _da()
+        dt = np.result_type(x.dtype, y.dtype)
+        if a["how"] == "map_blocks":
+            return da.map_blocks(_bw_add2, x, y, dtype=dt)
+        ind = tuple(range(x.ndim))
+        return da.blockwise(_bw_add2, ind, x, ind, y, ind, dtype=dt)
+
+
 @op("raw_operand", arity=1, weight=0.0)
 class RawOperandOp:
     """x (op) <array-like source object>: the source enters as a RAW operand, i.e. through asanyarray()
